@@ -208,6 +208,7 @@ fn op_hdrdec(rep: &mut Report, op: &str, d: &[u8]) {
     let st = match catch(|| gix_pack::data::Entry::from_read(&mut rd, 0, 20)) {
         Err(_) => "panic".to_string(),
         Ok(Err(e)) if e.kind() == std::io::ErrorKind::UnexpectedEof => "io".into(),
+        Ok(Err(e)) if e.kind() == std::io::ErrorKind::InvalidData => "err:toolong".into(),
         Ok(Err(e)) => {
             let s = e.to_string();
             match s.strip_prefix("Object type ").and_then(|r| r.split(' ').next()) {
@@ -237,6 +238,7 @@ fn op_lebdec(rep: &mut Report, op: &str, d: &[u8]) {
     let mut rd = d;
     let st = match catch(|| gix_features::decode::leb64_from_read(&mut rd)) {
         Err(_) => "panic".to_string(),
+        Ok(Err(e)) if e.kind() == std::io::ErrorKind::InvalidData => "err:toolong".into(),
         Ok(Err(_)) => "io".into(),
         Ok(Ok((v, i))) => format!("ok:{v}:{i}:left={}", rd.len()),
     };
